@@ -1309,16 +1309,37 @@ theorem followUpDay_invC (p : Params) (cap : Nat) (d : Int) (outs : Nat → Outc
     · simp
     · intro e he; exact h.queueOK e (List.mem_of_mem_take he)
 
-/-- update days never go backwards -/
-def WellDated (p : Params) (cap : Nat) : St → List Op1 → Prop
-  | _, [] => True
+/-- the day of an operation is not before the screening method's last update -/
+def opDated (st : St) : Op1 → Prop
+  | .update d => st.m.today ≤ d
+  | .fuDay d _ => st.m.today ≤ d
+  | _ => True
+
+/-- update days and follow-up days never go backwards (executable form) -/
+def wellDated (p : Params) (cap : Nat) : St → List Op1 → Bool
+  | _, [] => true
   | st, op :: t =>
     (match op with
-     | .update d => st.m.today ≤ d
-     | _ => True) ∧ WellDated p cap (step1 p cap st op) t
+     | .update d => decide (st.m.today ≤ d)
+     | .fuDay d _ => decide (st.m.today ≤ d)
+     | _ => true) && wellDated p cap (step1 p cap st op) t
+
+def WellDated (p : Params) (cap : Nat) (st : St) (ops : List Op1) : Prop := wellDated p cap st ops = true
+
+instance (p : Params) (cap : Nat) (st : St) (ops : List Op1) : Decidable (WellDated p cap st ops) := by
+  unfold WellDated; infer_instance
+
+theorem wellDated_cons {p : Params} {cap : Nat} {st : St} {op : Op1} {t : List Op1}
+    (h : WellDated p cap st (op :: t)) :
+    opDated st op ∧ WellDated p cap (step1 p cap st op) t := by
+  unfold WellDated wellDated at h
+  rw [Bool.and_eq_true] at h
+  refine ⟨?_, h.2⟩
+  have h1 := h.1
+  cases op <;> simp_all [opDated]
 
 theorem step1_invC (p : Params) (cap : Nat) (st : St) (op : Op1) (h : InvC p st)
-    (hw : match op with | .update d => st.m.today ≤ d | _ => True) : InvC p (step1 p cap st op) := by
+    (hw : opDated st op) : InvC p (step1 p cap st op) := by
   cases op with
   | screen s r d => exact ⟨h.poolOK, h.queueOK, h.poolThr, h.evsOK, h.relOK, h.firstOK⟩
   | update d => exact dailyUpdate_invC p d st h hw
@@ -1329,10 +1350,189 @@ theorem foldl_invC (p : Params) (cap : Nat) (ops : List Op1) (st : St) (h : InvC
     (hw : WellDated p cap st ops) : InvC p (ops.foldl (step1 p cap) st) := by
   induction ops generalizing st with
   | nil => exact h
-  | cons op t ih => exact ih _ (step1_invC p cap st op h hw.1) hw.2
+  | cons op t ih => exact ih _ (step1_invC p cap st op h (wellDated_cons hw).1) (wellDated_cons hw).2
 
 theorem run1_invC (p : Params) (cap : Nat) (ops : List Op1) (hw : WellDated p cap {} ops) :
     InvC p (run1 p cap ops) :=
   foldl_invC p cap ops {} (invC_init p) hw
+
+/-! ### invariant D: the flag counter counts the flag events; visits are not before the reporting delay -/
+
+def evCount (l : List FlagEv) (s : Nat) : Nat := l.countP (fun f => f.site = s)
+
+structure InvD (p : Params) (st : St) : Prop where
+  flagsEq : ∀ s, st.sh.flags s = evCount st.m.evs s
+  visitsOK : ∀ v ∈ st.sh.visits, v.recDate + p.rd ≤ v.day
+
+theorem flagSite_flagsEq (cls : Nat) (pl : Plan) (route : Route) (d first : Int) (st : St)
+    (h : ∀ s, st.sh.flags s = evCount st.m.evs s) :
+    ∀ s, (flagSite cls pl route d first st).sh.flags s = evCount (flagSite cls pl route d first st).m.evs s := by
+  intro s
+  simp only [flagSite, enqueue, evCount, List.countP_append, List.countP_cons, List.countP_nil, mkEv]
+  by_cases hs : s = pl.site
+  · subst hs; simp [h, evCount]
+  · have : ¬ pl.site = s := fun e => hs e.symm
+    simp [bump_other _ hs, this, h s, evCount]
+
+theorem updMobile_invD (p : Params) (d dc : Int) (r : Rec) (st : St)
+    (h : ∀ s, st.sh.flags s = evCount st.m.evs s) :
+    (∀ s, (updMobile p d dc r st).sh.flags s = evCount (updMobile p d dc r st).m.evs s) ∧
+    (updMobile p d dc r st).sh.visits = st.sh.visits := by
+  unfold updMobile
+  repeat' (first | split | simp only [])
+  all_goals first
+    | exact ⟨h, rfl⟩
+    | exact ⟨h, trivial⟩
+    | exact ⟨flagSite_flagsEq _ _ _ _ _ _ h, rfl⟩
+    | exact ⟨flagSite_flagsEq _ _ _ _ _ _ h, trivial⟩
+
+theorem updStationary_invD (p : Params) (d dc : Int) (r : Rec) (st : St)
+    (h : ∀ s, st.sh.flags s = evCount st.m.evs s) :
+    (∀ s, (updStationary p d dc r st).sh.flags s = evCount (updStationary p d dc r st).m.evs s) ∧
+    (updStationary p d dc r st).sh.visits = st.sh.visits := by
+  unfold updStationary
+  repeat' (first | split | simp only [])
+  all_goals first
+    | exact ⟨h, rfl⟩
+    | exact ⟨h, trivial⟩
+    | exact ⟨flagSite_flagsEq _ _ _ _ _ _ h, rfl⟩
+    | exact ⟨flagSite_flagsEq _ _ _ _ _ _ h, trivial⟩
+
+theorem processRec_invD (p : Params) (d dc : Int) (st : St) (r : Rec)
+    (h : ∀ s, st.sh.flags s = evCount st.m.evs s) :
+    (∀ s, (processRec p d dc st r).sh.flags s = evCount (processRec p d dc st r).m.evs s) ∧
+    (processRec p d dc st r).sh.visits = st.sh.visits := by
+  unfold processRec
+  split
+  · split
+    · exact updStationary_invD p d dc r _ h
+    · exact updMobile_invD p d dc r _ h
+  · exact ⟨h, rfl⟩
+
+theorem foldRec_invD (p : Params) (d dc : Int) (rs : List Rec) (st : St)
+    (h : ∀ s, st.sh.flags s = evCount st.m.evs s) :
+    (∀ s, (rs.foldl (processRec p d dc) st).sh.flags s = evCount (rs.foldl (processRec p d dc) st).m.evs s) ∧
+    (rs.foldl (processRec p d dc) st).sh.visits = st.sh.visits := by
+  induction rs generalizing st with
+  | nil => exact ⟨h, rfl⟩
+  | cons r t ih =>
+    have h1 := processRec_invD p d dc st r h
+    have h2 := ih _ h1.1
+    exact ⟨h2.1, h2.2.trans h1.2⟩
+
+theorem flagOne_invD (p : Params) (d first : Int) (st : St) (pl : Plan)
+    (h : ∀ s, st.sh.flags s = evCount st.m.evs s) :
+    (∀ s, (flagOne p d first st pl).sh.flags s = evCount (flagOne p d first st pl).m.evs s) ∧
+    (flagOne p d first st pl).sh.visits = st.sh.visits := by
+  unfold flagOne
+  split
+  · exact ⟨h, rfl⟩
+  · exact ⟨flagSite_flagsEq _ _ _ _ _ _ h, rfl⟩
+
+theorem foldFlag_invD (p : Params) (d first : Int) (cs : List Plan) (st : St)
+    (h : ∀ s, st.sh.flags s = evCount st.m.evs s) :
+    (∀ s, (cs.foldl (flagOne p d first) st).sh.flags s = evCount (cs.foldl (flagOne p d first) st).m.evs s) ∧
+    (cs.foldl (flagOne p d first) st).sh.visits = st.sh.visits := by
+  induction cs generalizing st with
+  | nil => exact ⟨h, rfl⟩
+  | cons pl t ih =>
+    have h1 := flagOne_invD p d first st pl h
+    have h2 := ih _ h1.1
+    exact ⟨h2.1, h2.2.trans h1.2⟩
+
+theorem updateCandidates_invD (p : Params) (d : Int) (st : St)
+    (h : ∀ s, st.sh.flags s = evCount st.m.evs s) :
+    (∀ s, (updateCandidates p d st).sh.flags s = evCount (updateCandidates p d st).m.evs s) ∧
+    (updateCandidates p d st).sh.visits = st.sh.visits := by
+  have hd : ∀ first (st' : St), (∀ s, st'.sh.flags s = evCount st'.m.evs s) →
+      (∀ s, (decideNow p d first st').sh.flags s = evCount (decideNow p d first st').m.evs s) ∧
+      (decideNow p d first st').sh.visits = st'.sh.visits := by
+    intro first st' h'
+    unfold decideNow
+    exact foldFlag_invD _ _ _ _ _ h'
+  unfold updateCandidates
+  split
+  · split
+    · exact ⟨h, rfl⟩
+    · split
+      · exact hd _ _ h
+      · exact ⟨h, rfl⟩
+  · split
+    · exact hd _ _ h
+    · exact ⟨h, rfl⟩
+
+theorem dailyUpdate_invD (p : Params) (d : Int) (st : St) (h : InvD p st) : InvD p (dailyUpdate p d st) := by
+  unfold dailyUpdate
+  simp only []
+  have h1 := foldRec_invD p d (d - p.rd) (st.m.records.filter (fun r => r.date = d - p.rd))
+    { st with m := { st.m with records := st.m.records.filter (fun r => r.date ≠ d - p.rd), today := d, nflags := 0 } }
+    h.flagsEq
+  have h2 := updateCandidates_invD p d _ h1.1
+  refine ⟨h2.1, ?_⟩
+  rw [h2.2, h1.2]
+  exact h.visitsOK
+
+theorem applyOutcome_invD (p : Params) (d : Int) (outs : Nat → Outcome) (sh : Shared) (pl : Plan)
+    (hv : ∀ v ∈ sh.visits, v.recDate + p.rd ≤ v.day) (hpl : pl.latest + p.rd ≤ d) :
+    (applyOutcome d outs sh pl).flags = sh.flags ∧
+    ∀ v ∈ (applyOutcome d outs sh pl).visits, v.recDate + p.rd ≤ v.day := by
+  have key : ∀ v ∈ sh.visits ++ [Visit.mk pl.site pl.latest (sh.latestTag pl.site) d (outs pl.site)],
+      v.recDate + p.rd ≤ v.day := by
+    intro v hv'
+    simp only [List.mem_append, List.mem_singleton] at hv'
+    rcases hv' with hv' | rfl
+    · exact hv v hv'
+    · exact hpl
+  unfold applyOutcome
+  simp only []
+  split <;> exact ⟨rfl, key⟩
+
+theorem foldOutcome_invD (p : Params) (d : Int) (outs : Nat → Outcome) (cs : List Plan) (sh : Shared)
+    (hv : ∀ v ∈ sh.visits, v.recDate + p.rd ≤ v.day) (hcs : ∀ pl ∈ cs, pl.latest + p.rd ≤ d) :
+    (cs.foldl (applyOutcome d outs) sh).flags = sh.flags ∧
+    ∀ v ∈ (cs.foldl (applyOutcome d outs) sh).visits, v.recDate + p.rd ≤ v.day := by
+  induction cs generalizing sh with
+  | nil => exact ⟨rfl, hv⟩
+  | cons pl t ih =>
+    have h1 := applyOutcome_invD p d outs sh pl hv (hcs pl (by simp))
+    have h2 := ih _ h1.2 (fun x hx => hcs x (by simp [hx]))
+    exact ⟨h2.1.trans h1.1, h2.2⟩
+
+theorem followUpDay_invD (p : Params) (cap : Nat) (d : Int) (outs : Nat → Outcome) (st : St)
+    (h : InvD p st) (hc : InvC p st) (hd : st.m.today ≤ d) :
+    InvD p { st with sh := followUpDay cap d outs st.sh } := by
+  unfold followUpDay
+  have := foldOutcome_invD p d outs (planned cap st.sh) { st.sh with queue := st.sh.queue.drop cap }
+    h.visitsOK (by
+      unfold planned dedupPlans
+      apply mem_dedup_fold
+      · simp
+      · intro e he
+        have := (hc.queueOK e (List.mem_of_mem_take he)).2.2
+        omega)
+  refine ⟨?_, this.2⟩
+  intro s
+  simp only [this.1]
+  exact h.flagsEq s
+
+theorem step1_invD (p : Params) (cap : Nat) (st : St) (op : Op1) (h : InvD p st) (hc : InvC p st)
+    (hw : opDated st op) : InvD p (step1 p cap st op) := by
+  cases op with
+  | screen s r d => exact ⟨h.flagsEq, h.visitsOK⟩
+  | update d => exact dailyUpdate_invD p d st h
+  | fuDay d outs => exact followUpDay_invD p cap d outs st h hc hw
+  | tag s d => exact ⟨h.flagsEq, h.visitsOK⟩
+
+theorem foldl_invD (p : Params) (cap : Nat) (ops : List Op1) (st : St) (h : InvD p st) (hc : InvC p st)
+    (hw : WellDated p cap st ops) : InvD p (ops.foldl (step1 p cap) st) := by
+  induction ops generalizing st with
+  | nil => exact h
+  | cons op t ih =>
+    exact ih _ (step1_invD p cap st op h hc (wellDated_cons hw).1)
+      (step1_invC p cap st op hc (wellDated_cons hw).1) (wellDated_cons hw).2
+
+theorem run1_invD (p : Params) (cap : Nat) (ops : List Op1) (hw : WellDated p cap {} ops) :
+    InvD p (run1 p cap ops) :=
+  foldl_invD p cap ops {} ⟨by intro s; rfl, by simp⟩ (invC_init p) hw
 
 end LdarModel.FollowUp
